@@ -1,0 +1,74 @@
+//! Verification hooks: read-only access to crate-private functions for the external
+//! proof/correspondence machinery. Compiled only with the `verif_hooks` feature.
+use std::sync::atomic::{AtomicU64, Ordering};
+
+use crate::{error::Error, lexer, value::Value};
+
+/// Calls the crate-private pairwise `merger` on two arbitrary shapes.
+///
+/// # Errors
+/// Whatever `merger` returns.
+pub fn merger(a: Value, b: Value) -> Result<Value, Error> {
+    crate::shape::merger::merger(a, b)
+}
+
+/// Calls the crate-private `merge` fold on a slice of shapes.
+///
+/// # Errors
+/// Whatever `merge` returns.
+pub fn merge(values: &[Value]) -> Result<Value, Error> {
+    crate::shape::merger::merge(values)
+}
+
+/// Runs the lexer: `(token name, start, end)` per token and the number of diagnostics.
+#[must_use]
+pub fn tokens(source: &str) -> (Vec<(String, usize, usize)>, usize) {
+    let mut diags = Vec::new();
+    let (tokens, spans) = lexer::tokenize(source, &mut diags);
+    (
+        tokens
+            .iter()
+            .zip(spans.iter())
+            .map(|(t, s)| (format!("{t:?}"), s.start, s.end))
+            .collect(),
+        diags.len(),
+    )
+}
+
+/// Runs lexer and parser: the rendered CST and the number of diagnostics.
+#[must_use]
+pub fn parse(source: &str) -> (String, usize) {
+    let mut diags = Vec::new();
+    let cst = crate::parser::Parser::parse(source, &mut diags);
+    (format!("{cst}"), diags.len())
+}
+
+static COUNTERS: [AtomicU64; 4] = [
+    AtomicU64::new(0),
+    AtomicU64::new(0),
+    AtomicU64::new(0),
+    AtomicU64::new(0),
+];
+
+/// Increments call counter `i` (0 = value path, 1 = text walk, 2 = merger, 3 = subset).
+pub fn bump(i: usize) {
+    COUNTERS[i].fetch_add(1, Ordering::Relaxed);
+}
+
+/// Resets all call counters.
+pub fn reset_counters() {
+    for c in &COUNTERS {
+        c.store(0, Ordering::Relaxed);
+    }
+}
+
+/// Reads the call counters.
+#[must_use]
+pub fn counters() -> [u64; 4] {
+    [
+        COUNTERS[0].load(Ordering::Relaxed),
+        COUNTERS[1].load(Ordering::Relaxed),
+        COUNTERS[2].load(Ordering::Relaxed),
+        COUNTERS[3].load(Ordering::Relaxed),
+    ]
+}
